@@ -27,8 +27,8 @@ Obs == IF "OBSERVED" \in DOMAIN IOEnv THEN JsonDeserialize(IOEnv.OBSERVED) ELSE 
 ObsFacR(u) == IF u \in DOMAIN Obs THEN RDiv(RLimbs(Obs[u].n), RLimbs(Obs[u].d)) ELSE UStdFacR(u)
 
 \* ---- recorded values
-CompoundOf(us) == [k \in {us[i][1] : i \in 1..Len(us)} |->
-                     LET i == CHOOSE j \in 1..Len(us) : us[j][1] = k IN [pw |-> us[i][2], px |-> us[i][3]]]
+CompoundOf(us) == TLCEval([k \in {us[i][1] : i \in 1..Len(us)} |->
+                     LET i == CHOOSE j \in 1..Len(us) : us[j][1] = k IN [pw |-> us[i][2], px |-> us[i][3]]])
 KnownKeys(us) == \A i \in 1..Len(us) : us[i][1] \in UKeys
 LimbsSmall(ls) == Len(ls) = 1 \/ (Len(ls) = 2 /\ ls[1] <= 2)
 LimbsVal(ls) == IF Len(ls) = 1 THEN ls[1] ELSE ls[1] * 10000 + ls[2]
@@ -45,7 +45,7 @@ SameSI(spec, v) == LET u == CompoundOf(v.u)
                        lhs == RMul(RLimbs(v.n), Scale(u))
                        n == IF v.neg THEN RNeg(lhs) ELSE lhs
                        d == RLimbs(v.d) IN
-                   \A k \in PIdx : d[k] = 0 \/ n[k] = (spec.si[k] * d[k]) % Primes[k]
+                   \A k \in PIdx : d[k] = 0 \/ n[k] = Blind \/ spec.si[k] = Blind \/ n[k] = (spec.si[k] * d[k]) % Primes[k]
 Compare(spec, got) ==
   IF spec.k = "ood" THEN "ood"
   ELSE IF spec.k \in {"dz", "err"} THEN (IF got.k = "err" THEN "" ELSE IF spec.k = "dz" THEN "divzero-gave-value" ELSE "error-expected")
@@ -65,7 +65,7 @@ SpecApp(a) ==
   ELSE IF \E i \in 1..Len(a.args) : HasOffset(CompoundOf(a.args[i].u)) THEN Ood
   ELSE IF a.op \in {"+", "-", "*", "/", "^"} THEN Apply(a.op, AsSpec(a.args[1]), AsSpec(a.args[2]))
   ELSE IF a.op = "to" THEN Cast(AsSpec(a.args[1]), CompoundOf(a.args[2].u))
-  ELSE Builtin(a.op, [i \in 1..Len(a.args) |-> AsSpec(a.args[i])])
+  ELSE Builtin(a.op, TLCEval([i \in 1..Len(a.args) |-> AsSpec(a.args[i])]))
 
 RECURSIVE AppProblems(_, _, _)
 AppProblems(apps, i, acc) ==
@@ -96,6 +96,6 @@ Next == /\ l <= Len(Rec) /\ l' = l + 1
         /\ LET c == Check(Rec[l]) IN
            /\ njudged' = njudged + (IF c.judged THEN 1 ELSE 0)
            /\ ndecided' = ndecided + c.decided
-           /\ (c.problems = <<>> \/ PrintT(<<"MISMATCH", l, Rec[l].id, c.problems>>))
-Done == l = Len(Rec) + 1 => PrintT(<<"SUMMARY", Len(Rec), njudged, ndecided>>)
+           /\ (c.problems = <<>> \/ PrintT(<<"MISMATCH", ToJson([l |-> l, id |-> Rec[l].id, problems |-> c.problems])>>))
+Done == l = Len(Rec) + 1 => PrintT(<<"SUMMARY", ToJson([records |-> Len(Rec), judged |-> njudged, decided |-> ndecided])>>)
 =============================================================================
